@@ -86,6 +86,7 @@ def run(tier, seed, replay=None):
         # depth for the algorithms with loop limits: adoption agency (8 outer / 3 inner), Noah's ark (3 + 1)
         ("aaa-deep", P + ["--mode", "enum", "--family", "aaa", "--k", 5 if q else 6, "--pieces", 8 if q else 9], N),
         ("ark-deep", P + ["--mode", "enum", "--family", "ark", "--k", 5 if q else 6, "--pieces", 7 if q else 9], N),
+        ("ruby-k4", P + ["--mode", "enum", "--family", "ruby", "--k", 4 if q else 5, "--pieces", 8 if q else 11], N),
         ("lf-k3", P + ["--mode", "enum", "--family", "lf", "--k", 3 if q else 4, "--pieces", 19], N),
         ("selectedcontent", P + ["--mode", "selectedcontent", "--k", 3 if q else 4], N),
         ("random", P + ["--mode", "random", "--n", 10000 if q else 400000, "--maxpieces", 14], N),
